@@ -33,14 +33,20 @@ class Wrap:
         self.e0, self.m0 = M._labels_inertia, M._centers_dense
         self.ev = ev = []
 
-        def E(norm, X, sample_weight, centers, distances=None):
-            cen = enc_pts(centers)
-            labels, inertia = self.e0(norm, X, sample_weight, centers, distances=distances)
-            ev.append(dict(a="E", centers=cen, labels=[int(v) for v in labels], inertia=enc_val(inertia)))
+        # the wrappers follow whatever signature the helpers have (the arguments they need are found by name)
+        import inspect
+
+        def E(*a, **kw):
+            labels, inertia = self.e0(*a, **kw)
+            try:
+                centers = inspect.signature(self.e0).bind(*a, **kw).arguments["centers"]
+                ev.append(dict(a="E", centers=enc_pts(centers), labels=[int(v) for v in labels], inertia=enc_val(inertia)))
+            except (KeyError, TypeError):
+                pass
             return labels, inertia
 
-        def Mst(X, sample_weight, labels, n_clusters, distances, X_sort_index):
-            c = self.m0(X, sample_weight, labels, n_clusters, distances, X_sort_index)
+        def Mst(*a, **kw):
+            c = self.m0(*a, **kw)
             ev.append(dict(a="M", centers=enc_pts(c)))
             return c
         M._labels_inertia, M._centers_dense = E, Mst
@@ -93,7 +99,17 @@ def final_trace(tid, Xi, k, init, seed, n_init, rng, dtype):
         warnings.simplefilter("ignore")
         try:
             km = KMeansL1L2(n_clusters=k, norm="L1", init=init, n_init=n_init, max_iter=10, random_state=seed,
-                            tol=rng.choice([1e-4, 0.05, 0.25, 1.0])).fit(X)
+                            tol=rng.choice([1e-4, 0.05, 0.25, 1.0]))
+            if rng.random() < 0.4:
+                # an earlier life of the instance: other data, every accessor used once
+                t["sig"] += " refit"
+                Xo = (X[::-1] * 3 + 11).astype(dtype)
+                try:
+                    km.fit(Xo)
+                    km.predict(Xo), km.transform(Xo)
+                except Exception:
+                    pass
+            km.fit(X)
             t["ev"] = [dict(a="result", centers=enc_pts(km.cluster_centers_), labels=[int(v) for v in km.labels_],
                             inertia=enc_val(km.inertia_), probes=probes_of(km, X, rng, d))]
         except Exception as e:
@@ -120,6 +136,9 @@ def l2_trace(tid, Xi, k, init, seed, rng, dtype):
                   eq_transform=bool(numpy.array_equal(a.transform(P), b.transform(P))))
     return dict(id=tid, kind="l2", d=d, k=k, max_iter=10, X=[[2 * v for v in r] for r in Xi], init=[[0] * d] * k,
                 site=SITE2, sig="init=%s" % init, ev=[ev])
+
+
+RESULT_CLAUSES = {"NearestLabel", "InertiaIsSum", "CentresInBox", "PredictIsNearest", "TransformIsManhattan", "L2IsKMeans"}
 
 
 def classify(t, v):
@@ -196,10 +215,32 @@ def run(ctx):
     for (d, mi), trs in sorted(groups.items()):
         cfg = ("SPECIFICATION TSpec\nCONSTANTS Lattice = {}\n Dim = %d\n MaxPts = 0\n MaxK = 0\n MaxIter = %d\n StopRule = \"any\"\n DEV_EmptyClusterNaN = FALSE\n"
                "CHECK_DEADLOCK FALSE\n" % (d, mi))
+        # every step-by-step trace has a companion that carries only what fit returned (kind "final"): the clauses of the
+        # property are decided on it, whatever the loop looks like
+        comp = {}
+        for t in list(trs):
+            if t["kind"] == "lloyd" and t["ev"] and t["ev"][-1].get("a") == "result":
+                c = dict(t, id="%sf" % t["id"], kind="final", init=[[0] * d] * t["k"], ev=[t["ev"][-1]])
+                comp[t["id"]] = c["id"]
+                trs.append(c)
         verdicts, st = tlc.validate("KMediansTrace", cfg, trs, timeout=2400)
         ctx.states += st["states"]
         ctx.transitions += st["transitions"]
-        ctx.verdicts(verdicts, {t["id"]: t for t in trs}, SITE, classify=classify)
+        demanded = {tid_: v for tid_, v in verdicts.items() if tid_ not in comp}
+        stepwise = {tid_: v for tid_, v in verdicts.items() if tid_ in comp}
+        byid = {t["id"]: t for t in trs}
+        ctx.verdicts(demanded, byid, SITE, classify=classify)
+        for tid_, v in stepwise.items():
+            ctx.traces += 1
+            if v.ok:
+                continue
+            clauses = {f[0] for f in v.fails}
+            if clauses & RESULT_CLAUSES:
+                ctx.violation(sorted(clauses & RESULT_CLAUSES)[0], SITE, byid[tid_]["sig"], v.describe(), case=byid[tid_])
+            elif verdicts[comp[tid_]].ok:
+                # the loop is not the modelled one (other update rule, other helpers) but what fit returned satisfies every clause
+                ctx.model_drift("KMeansL1L2(norm='L1'): the Lloyd loop is not the modelled E / M sequence (%s)"
+                                % ",".join(sorted(clauses) or ["NotABehaviour"]), SITE, v.describe())
         ctx.extra.setdefault("trace_runs", []).append(dict(spec="KMediansTrace", dim=d, max_iter=mi, traces=len(trs), **st))
         for t in trs:
             for e in t["ev"]:
